@@ -215,6 +215,12 @@ func (c *config) dress(r *rand.Rand, ups []*upstream) {
 			if r.Intn(2) == 0 {
 				u.rules.Groups = append(u.rules.Groups, "grp-shared")
 			}
+			if r.Intn(3) == 0 {
+				// the very same list on several upstreams (which may differ in provider, route kind, options):
+				// anything built "once per distinct rule" must still belong to the upstream that uses it
+				// (added after seeded change C11i - validators shared by kind+list, provider left out of the key)
+				u.rules.Groups = []string{"grp-common", "grp-shared"}
+			}
 		}
 		u.prsv = r.Intn(5) == 0
 		u.open = r.Intn(3) == 0
